@@ -183,36 +183,45 @@ def srvSweep (now : Nat) (s : SSys) : SSys :=
            dnsH := s.dnsH.map fun h => if goneHids.contains h.hid then { h with ok := false } else h,
            udphandlers := s.udphandlers.filter fun p => !ugone p }
 
+/-- `runonce` found socket `k` of the `DnsProxy` `h` ready: its `callback(k)`. -/
+def dnsSockStep (cfg : Cfg) (s : SSys) (h : DnsH) (k : Nat) (r : RecvRes) (sc : Script) : SSys :=
+  let t := dnsCallback cfg h k r s.nextSock sc
+  let s1 := { s with dnsH := s.dnsH.map fun h' => if h'.hid = h.hid then t.h else h',
+                     nextSock := t.nextSock, rsends := s.rsends ++ t.sends,
+                     out := s.out ++ t.frames,
+                     replies := s.replies ++ t.frames.map fun f => ⟨h.hid, h.chan, h.request, f.data⟩,
+                     attempts := match r with
+                       | .err _ => s.attempts ++ [(h.hid, t.attempts)]
+                       | _ => s.attempts }
+  match t.err with
+  | some e => s1.fail e
+  | none => s1
+
+/-- The event of one `runonce` call on the listed (live) handlers. -/
+def roundEvent (cfg : Cfg) (now : Nat) (ev : SEvent) (sc : Script) (s : SSys) : SSys :=
+  match ev with
+  | .mux frames => (srvGotAll cfg now frames sc s).1
+  | .sock k r =>
+    match s.dnsH.find? (fun h => h.socks.contains k) with
+    | some h => dnsSockStep cfg s h k r sc
+    | none =>
+      match s.udpH.find? (fun h => h.sock = k) with
+      | some h =>
+        match udpCallback cfg h r with
+        | .error e => s.fail e
+        | .ok frames => { s with out := s.out ++ frames }
+      | none => s
+
+/-- Back in `server.main`: the sweeps, unless the round raised. -/
+def finishRound (now : Nat) (s1 : SSys) : SSys :=
+  if s1.dead.isSome then s1 else srvSweep now s1
+
 /-- One round of `while mux.ok:` — `runonce` (drop dead handlers, one ready descriptor,
 its callback) and the sweeps. -/
 def SSys.round (cfg : Cfg) (now : Nat) (ev : SEvent) (sc : Script) (s : SSys) : SSys :=
   if s.dead.isSome then s else
-  let s := { s with dnsH := s.dnsH.filter (·.ok), udpH := s.udpH.filter (·.ok) }
-  let s1 : SSys :=
-    match ev with
-    | .mux frames => (srvGotAll cfg now frames sc s).1
-    | .sock k r =>
-      match s.dnsH.find? (fun h => h.socks.contains k) with
-      | some h =>
-        let t := dnsCallback cfg h k r s.nextSock sc
-        let s1 := { s with dnsH := s.dnsH.map fun h' => if h'.hid = h.hid then t.h else h',
-                           nextSock := t.nextSock, rsends := s.rsends ++ t.sends,
-                           out := s.out ++ t.frames,
-                           replies := s.replies ++ t.frames.map fun f => ⟨h.hid, h.chan, h.request, f.data⟩,
-                           attempts := match r with
-                             | .err _ => s.attempts ++ [(h.hid, t.attempts)]
-                             | _ => s.attempts }
-        match t.err with
-        | some e => s1.fail e
-        | none => s1
-      | none =>
-        match s.udpH.find? (fun h => h.sock = k) with
-        | some h =>
-          match udpCallback cfg h r with
-          | .error e => s.fail e
-          | .ok frames => { s with out := s.out ++ frames }
-        | none => s
-  if s1.dead.isSome then s1 else srvSweep now s1
+  finishRound now (roundEvent cfg now ev sc
+    { s with dnsH := s.dnsH.filter (·.ok), udpH := s.udpH.filter (·.ok) })
 
 /-! ## both ends and the tunnel -/
 
